@@ -635,6 +635,38 @@ pub fn cases(prop: &str, tier: &str, ctx: &mut Ctx, rng: &mut Rng) {
                     flip("bits_path", &|s| s.bits = Some(if s.bits.as_deref() == Some("::bits::DecodedBits") { "::other::Bits".into() } else { "::bits::DecodedBits".into() }));
                 }
             }
+            // substitutes WITH DECLARED GENERICS under every switch flip (seeded change C09-1: a spliced
+            // parameter was rendered with the default alloc path): every generic item path of the corpus
+            // is substituted, its parameters spliced into the target, identity and reversed order
+            for (n, _rj, reg) in &corp {
+                if reg.types.len() > 60 {
+                    continue;
+                }
+                for p in item_paths(reg) {
+                    let np = reg.types.iter().find(|t| t.ty.path.segments == p)
+                        .map(|t| t.ty.type_params.iter().filter(|q| q.ty.is_some()).count()).unwrap_or(0);
+                    if np == 0 || np > 3 {
+                        continue;
+                    }
+                    let names: Vec<String> = (0..np).map(|i| ["A", "B", "C"][i].to_string()).collect();
+                    let mut rev = names.clone();
+                    rev.reverse();
+                    let mut base = base_spec(reg);
+                    base.ops.push(OpSpec::SubInsert(
+                        format!("{}<{}>", p.join("::"), names.join(", ")),
+                        format!("::ext::Sub<{}, ::ext::Inner<{}>>", rev.join(", "), names[0]),
+                    ));
+                    let mut flip = |kind: &str, f: &dyn Fn(&mut SettingsSpec)| {
+                        let mut b = base.clone();
+                        f(&mut b);
+                        ctx.push_pair(&format!("flip-subst:{kind}:{n}"), kind, (reg, &base), (reg, &b));
+                    };
+                    flip("alloc", &|s| s.alloc = Some("::my_crate::alloc_crate".into()));
+                    flip("root", &|s| s.root = "other_root".into());
+                    flip("compact_path", &|s| s.compact = Some("::other::Cpt".into()));
+                    flip("bits_path", &|s| s.bits = Some("::other::Bits".into()));
+                }
+            }
             // all 2^6 combinations of the switches; every edge of the cube (two combinations that differ
             // in one switch) is one pair for prop_frame, every vertex is checked by prop_switches
             let cube_regs: Vec<&(String, serde_json::Value, PortableRegistry)> = corp.iter()
